@@ -25,3 +25,25 @@ structure LazyOf (L : Matcher) : Prop where
 
 end Op
 end Qco
+
+namespace Qco
+namespace Op
+open Parser
+
+/-- `LazyOf` without prefix-safety. The real stride lookup (`matchStride`) is NOT monotone in the
+available data — with exactly one code's worth of bits left it answers, with one more bit (but
+fewer than the stride) it answers `insufficient` again — so `LazyOf.safe` does not hold of it
+(`Qco/Lemmas/Stride.lean`). What the refinement proofs really need is only: answers are the
+specification's answers, failures are `insufficient`, and enough slack makes it answer. -/
+structure WeakLazyOf (L : Matcher) : Prop where
+  sound : ∀ pos codes s i r, completeTree codes = true → L pos codes s = .ok i r → matchCode codes s = .ok i r
+  only_insufficient : ∀ pos codes s, completeTree codes = true →
+    (∃ i r, L pos codes s = .ok i r) ∨ L pos codes s = .insufficient
+  eager_with_slack : ∀ pos codes s i r, completeTree codes = true → matchCode codes s = .ok i r →
+    lookahead ≤ r.length → L pos codes s = .ok i r
+
+theorem LazyOf.weak {L : Matcher} (h : LazyOf L) : WeakLazyOf L :=
+  ⟨h.sound, h.only_insufficient, h.eager_with_slack⟩
+
+end Op
+end Qco
